@@ -1,3 +1,4 @@
 if(VERIF_DIST)
   verif_dist_harness(c17_net c17_net.cpp)
+  verif_dist_harness(c17_ser c17_ser_main.cpp c17_ser_t1.cpp c17_ser_t2.cpp c17_ser_t3.cpp)
 endif()
